@@ -103,6 +103,9 @@ class Environment:
     """
 
     def __init__(self, initial_time: SimTime = 0):
+        if initial_time != initial_time:
+            # NaN: every agenda key would be unordered
+            raise ValueError(f'initial_time (={initial_time}) must be a number.')
         self._now = initial_time
         self._queue: List[
             Tuple[SimTime, EventPriority, int, Event]
